@@ -280,6 +280,9 @@ func c08Addr(i int) common.Address {
 }
 
 func c08MakeWorkload(seed int64, idx int, H int) *c08Workload {
+	if idx >= 200 {
+		return c08MakeRewindWorkload(seed, idx, H)
+	}
 	if idx >= 100 {
 		return c08MakeLagWorkload(seed, idx, H)
 	}
@@ -434,12 +437,12 @@ type c08Dump struct {
 }
 
 type c08ChildOut struct {
-	OpenPanic string    `json:"openPanic"`
-	First     *c08Dump  `json:"first"`
-	Cont      []string  `json:"cont"` // results of re-applying blocks stable+1..upTo
-	Second    *c08Dump  `json:"second"`
-	Reopen2   *c08Dump  `json:"reopen2"` // after a clean close and a second reopen
-	Notes     []string  `json:"notes"`
+	OpenPanic string   `json:"openPanic"`
+	First     *c08Dump `json:"first"`
+	Cont      []string `json:"cont"` // results of re-applying blocks stable+1..upTo
+	Second    *c08Dump `json:"second"`
+	Reopen2   *c08Dump `json:"reopen2"` // after a clean close and a second reopen
+	Notes     []string `json:"notes"`
 }
 
 func c08Observe(db *store.ChainDatabase, w *c08Workload) *c08Dump {
@@ -890,18 +893,19 @@ func c08ChainOracle(c *Ctx, base string) {
 			// record layout of the batch of promotion h
 			// (tmp.data may start with records written while block h was executed — contract code, trie nodes —
 			// if the writer had not drained them before the batch was appended; the batch starts at the block record)
-			type recPos struct{ start, body, end int }
-			var recs []recPos
+			recs := c08Layout(batch)
 			batchStart := -1
-			for off := 0; off+18 <= len(batch); {
-				bl := int(binary.LittleEndian.Uint32(batch[off+4:]))
-				end := off + int(store.FileUtilsAlign(uint32(18+bl)))
-				if batchStart < 0 && binary.LittleEndian.Uint32(batch[off:]) == leveldb.ItemFlagBlock {
-					batchStart = len(recs)
+			for ri, rp := range recs {
+				if rp.flg == leveldb.ItemFlagBlock {
+					batchStart = ri
+					break
 				}
-				recs = append(recs, recPos{off, bl, end})
-				off = end
 			}
+			if len(recs) == 0 {
+				c08Fail(c, "c08/harness/no-record-in-wal", fmt.Sprintf("promotion %d: tmp.data of the snapshot holds no readable record (%d bytes)", h, len(batch)), nil)
+				continue
+			}
+			batch = batch[:recs[len(recs)-1].end] // what the reader can see; anything behind is not part of the promotion
 			if batchStart < 0 {
 				batchStart = 0
 			}
@@ -948,7 +952,7 @@ func c08ChainOracle(c *Ctx, base string) {
 						cause = "batch-durable-pointer-not-moved"
 					}
 					im := newImg(snaps[h-1], fmt.Sprintf("promotion %d: tmp.data append cut at byte %d of %d (inside record %d of %d: %s; %d of the %d records of the batch complete)", h, ct.off, len(batch), j+1, len(recs), class, complete, nb), class, cause, h-1, h)
-					os.WriteFile(filepath.Join(im.dir, "tmp.data"), batch[:ct.off], 0644)
+					os.WriteFile(filepath.Join(im.dir, "tmp.data"), batch[:min(ct.off, len(batch))], 0644)
 					im.replay["cut"] = ct.off
 					im.replay["batch_len"] = len(batch)
 				}
@@ -1064,52 +1068,55 @@ func c08ChainOracle(c *Ctx, base string) {
 		}
 		wg.Wait()
 		for i, img := range images {
-			r := results[i]
-			if r.out == nil {
-				c.Count("chain:" + img.class + ":process-died")
-				c08Fail(c, "c08/reopen-crash/"+img.cause, fmt.Sprintf("[%s] the process reopening the data directory dies: %s", img.name, r.die), img.replay)
-				continue
-			}
-			if r.out.OpenPanic != "" {
-				c.Count("chain:" + img.class + ":reopen-panic")
-				c08Fail(c, "c08/reopen-panic/"+img.cause, fmt.Sprintf("[%s] NewChainDataBase panics: %s", img.name, r.out.OpenPanic), img.replay)
-				continue
-			}
-			maxSt := img.completed
-			if img.inflight >= 0 {
-				maxSt = img.inflight
-			}
-			fails := c08CheckDump(c, w, img, r.out.First, "after reopen", img.completed, maxSt)
-			// restart equivalence: the restarted node must accept the same subsequent blocks and end like the continuous node
-			if len(fails) == 0 || r.out.First.Stable >= 0 {
-				for _, s := range r.out.Cont {
-					if !strings.HasSuffix(s, ":ok/ok") {
-						fails = append(fails, "c08/restart-rejects-block")
-						c08Fail(c, "c08/restart-rejects-block/"+img.cause, fmt.Sprintf("[%s] restarted node (stable %d) re-applies the workload's next blocks: %v — the continuous node accepted all of them", img.name, r.out.First.Stable, r.out.Cont), img.replay)
-						break
+			i, img := i, img
+			c08Guard(c, "image-check", func() {
+				r := results[i]
+				if r.out == nil {
+					c.Count("chain:" + img.class + ":process-died")
+					c08Fail(c, "c08/reopen-crash/"+img.cause, fmt.Sprintf("[%s] the process reopening the data directory dies: %s", img.name, r.die), img.replay)
+					return
+				}
+				if r.out.OpenPanic != "" {
+					c.Count("chain:" + img.class + ":reopen-panic")
+					c08Fail(c, "c08/reopen-panic/"+img.cause, fmt.Sprintf("[%s] NewChainDataBase panics: %s", img.name, r.out.OpenPanic), img.replay)
+					return
+				}
+				maxSt := img.completed
+				if img.inflight >= 0 {
+					maxSt = img.inflight
+				}
+				fails := c08CheckDump(c, w, img, r.out.First, "after reopen", img.completed, maxSt)
+				// restart equivalence: the restarted node must accept the same subsequent blocks and end like the continuous node
+				if len(fails) == 0 || r.out.First.Stable >= 0 {
+					for _, s := range r.out.Cont {
+						if !strings.HasSuffix(s, ":ok/ok") {
+							fails = append(fails, "c08/restart-rejects-block")
+							c08Fail(c, "c08/restart-rejects-block/"+img.cause, fmt.Sprintf("[%s] restarted node (stable %d) re-applies the workload's next blocks: %v — the continuous node accepted all of them", img.name, r.out.First.Stable, r.out.Cont), img.replay)
+							break
+						}
+					}
+					end := H
+					if img.upTo > 0 {
+						end = img.upTo
+					}
+					if r.out.Second != nil && len(fails) == 0 {
+						fails = append(fails, c08CheckDump(c, w, img, r.out.Second, "after continuing", end, end)...)
+					}
+					if r.out.Reopen2 != nil && len(fails) == 0 {
+						fails = append(fails, c08CheckDump(c, w, img, r.out.Reopen2, "second clean reopen", end, end)...)
+					}
+					for _, nt := range r.out.Notes {
+						fails = append(fails, "c08/reopen-panic")
+						c08Fail(c, "c08/reopen-panic/second-reopen", fmt.Sprintf("[%s] %s", img.name, nt), img.replay)
 					}
 				}
-				end := H
-				if img.upTo > 0 {
-					end = img.upTo
+				if len(fails) == 0 {
+					c.Count("chain:" + img.class + ":intact")
+				} else {
+					sort.Strings(fails)
+					c.Count("chain:" + img.class + ":" + strings.TrimPrefix(fails[0], "c08/"))
 				}
-				if r.out.Second != nil && len(fails) == 0 {
-					fails = append(fails, c08CheckDump(c, w, img, r.out.Second, "after continuing", end, end)...)
-				}
-				if r.out.Reopen2 != nil && len(fails) == 0 {
-					fails = append(fails, c08CheckDump(c, w, img, r.out.Reopen2, "second clean reopen", end, end)...)
-				}
-				for _, nt := range r.out.Notes {
-					fails = append(fails, "c08/reopen-panic")
-					c08Fail(c, "c08/reopen-panic/second-reopen", fmt.Sprintf("[%s] %s", img.name, nt), img.replay)
-				}
-			}
-			if len(fails) == 0 {
-				c.Count("chain:" + img.class + ":intact")
-			} else {
-				sort.Strings(fails)
-				c.Count("chain:" + img.class + ":" + strings.TrimPrefix(fails[0], "c08/"))
-			}
+			})
 		}
 		// second-generation crash images: a node that was restarted from a crash image and continued dies again
 		// with a torn tmp.data
@@ -1120,18 +1127,14 @@ func c08ChainOracle(c *Ctx, base string) {
 				continue
 			}
 			// cut inside the body of the last record
-			last, lastBody := 0, 0
-			for off := 0; off+18 <= len(data); {
-				bl := int(binary.LittleEndian.Uint32(data[off+4:]))
-				adv := int(store.FileUtilsAlign(uint32(18 + bl)))
-				if adv == 0 || off+adv > len(data) {
-					break
-				}
-				last, lastBody = off, bl
-				off += adv
+			lay := c08Layout(data)
+			if len(lay) == 0 {
+				os.RemoveAll(g2.dir)
+				continue
 			}
+			last, lastBody := lay[len(lay)-1].start, lay[len(lay)-1].body
 			cut := last + 18 + lastBody/2
-			os.WriteFile(filepath.Join(g2.dir, "tmp.data"), data[:cut], 0644)
+			os.WriteFile(filepath.Join(g2.dir, "tmp.data"), data[:min(cut, len(data))], 0644)
 			img := &c08Image{candsOld: -1, name: fmt.Sprintf("second generation: the node restarted from [%s], continued to block %d and died again with tmp.data cut at byte %d of %d", g2.name, g2.completed, cut, len(data)), class: "second-generation", cause: "second-generation-torn-wal", dir: g2.dir, completed: g2.completed, inflight: -1}
 			img.replay = map[string]interface{}{"level": "ChainDatabase", "generation": 2, "first": g2.name, "cut": cut}
 			o, die := c08RunChild(c, img, wl, H, H)
@@ -1173,10 +1176,55 @@ func c08ChainOracle(c *Ctx, base string) {
 	}
 }
 
+// c08Layout lists the records a file really holds, the way the reader walks it: it stops at the first head whose
+// body is not completely in the file, whose length is 0 or whose checksum does not match. Nothing read from the
+// file (it was written by the code under test) is used as a slice bound without a check.
+type c08RecPos struct {
+	start, body, end int
+	flg              uint32
+}
+
+func c08Layout(data []byte) []c08RecPos {
+	var recs []c08RecPos
+	for off := 0; off+18 <= len(data); {
+		bl := int(binary.LittleEndian.Uint32(data[off+4:]))
+		if bl <= 0 || bl > len(data) || off+18+bl > len(data) {
+			break
+		}
+		if store.CheckSum(data[off+18:off+18+bl]) != binary.LittleEndian.Uint16(data[off+16:]) {
+			break
+		}
+		adv := int(store.FileUtilsAlign(uint32(18 + bl)))
+		if adv <= 0 {
+			break
+		}
+		end := off + adv
+		if end > len(data) {
+			end = len(data)
+		}
+		recs = append(recs, c08RecPos{off, bl, end, binary.LittleEndian.Uint32(data[off:])})
+		off += adv
+	}
+	return recs
+}
+
+// c08Guard runs one oracle family (or the check of one image); a panic of the HARNESS is reported as a failure of
+// its own instead of killing the run.
+func c08Guard(c *Ctx, what string, f func()) {
+	defer func() {
+		if r := recover(); r != nil {
+			c.Count("harness-panic:" + what)
+			c08Fail(c, "c08/harness/"+what+"-panicked", fmt.Sprintf("the harness itself panicked in %s: %v (the code under test produced something the harness did not expect)", what, r), nil)
+		}
+	}()
+	f()
+}
+
 func c08Oracles(c *Ctx, base string) {
-	c08BeansOracle(c, base)
-	c08ChainOracle(c, base)
-	c08LagOracle(c, base)
+	c08Guard(c, "beans-oracle", func() { c08BeansOracle(c, base) })
+	c08Guard(c, "chain-oracle", func() { c08ChainOracle(c, base) })
+	c08Guard(c, "lag-oracle", func() { c08LagOracle(c, base) })
+	c08Guard(c, "rewind-oracle", func() { c08RewindOracle(c, base) })
 }
 
 var _ = hex.EncodeToString
